@@ -339,6 +339,28 @@ class _rewrite_captured_vars(ast.NodeTransformer):
         self._ignore_stack.pop()
         return v
 
+    def _visit_comprehension(self, node: Any) -> Any:
+        """The loop variables of a comprehension hide captured variables of the same name
+        everywhere in the comprehension, except in the first iterable (which python
+        evaluates in the enclosing scope)."""
+        first_iter = self.visit(node.generators[0].iter)
+        targets = [
+            n.id
+            for g in node.generators
+            for n in ast.walk(g.target)
+            if isinstance(n, ast.Name)
+        ]
+        self._ignore_stack.append(targets)
+        v = super().generic_visit(node)
+        self._ignore_stack.pop()
+        v.generators[0].iter = first_iter
+        return v
+
+    visit_ListComp = _visit_comprehension
+    visit_GeneratorExp = _visit_comprehension
+    visit_SetComp = _visit_comprehension
+    visit_DictComp = _visit_comprehension
+
     def visit_Call(self, node: ast.Call) -> Any:
         "If the rewritten call turns into an actual function, then we have to bail,"
         old_func = node.func
